@@ -713,7 +713,7 @@ func (x *xl) loop(s ast.Stmt, rest []ast.Stmt, k *cont) ([]string, bool, error) 
 		if x.fuelIdx >= len(x.f.Fuel) {
 			return nil, false, x.errf(s, "for loop without a fuel expression in the whitelist entry")
 		}
-		fe, err := parser.ParseExpr(x.f.Fuel[x.fuelIdx])
+		fe, err := parser.ParseExpr(substParams(x.f.Fuel[x.fuelIdx], x.goParamNames))
 		if err != nil {
 			return nil, false, fmt.Errorf("fuel expression %q: %v", x.f.Fuel[x.fuelIdx], err)
 		}
@@ -1047,6 +1047,8 @@ func (w *xlWorld) translateFunc(repo string, p *xlPkg, f *xlFunc, fd *ast.FuncDe
 		if err := addParam(sig.Params().At(i)); err != nil {
 			return "", err
 		}
+		x.goParamNames = append(x.goParamNames, sig.Params().At(i).Name())
+		x.leanParamNames = append(x.leanParamNames, params[len(params)-1].name)
 	}
 	if len(null) > 0 {
 		return "", fmt.Errorf("Nullable names a parameter that does not exist")
@@ -1187,11 +1189,21 @@ func (w *xlWorld) translateFunc(repo string, p *xlPkg, f *xlFunc, fd *ast.FuncDe
 	}
 	b.WriteString(strings.Join(ind(ind(append(lets, body...))), "\n"))
 	b.WriteString("\n\x01")
-	fmt.Fprintf(&b, "/-- %s.%s%s with the recursion fuel instantiated: %s -/\n", f.Pkg, recv, f.Name, f.RecFuel)
+	recFuel := substParams(f.RecFuel, x.leanParamNames)
+	fmt.Fprintf(&b, "/-- %s.%s%s with the recursion fuel instantiated: %s -/\n", f.Pkg, recv, f.Name, recFuel)
 	fmt.Fprintf(&b, "def %s", f.Lean)
 	for _, a := range all {
 		fmt.Fprintf(&b, " (%s : %s)", a.name, a.typ)
 	}
-	fmt.Fprintf(&b, " : %s :=\n  %s\n", retT, strings.Join(append(append(append([]string{rec.lean}, preNames...), "("+f.RecFuel+")"), pns...), " "))
+	fmt.Fprintf(&b, " : %s :=\n  %s\n", retT, strings.Join(append(append(append([]string{rec.lean}, preNames...), "("+recFuel+")"), pns...), " "))
 	return b.String(), nil
+}
+
+// substParams: `$1`, `$2`, … in a whitelist fuel expression stand for the function's parameters by
+// position, so that renaming a parameter or a local variable does not invalidate the whitelist
+func substParams(s string, names []string) string {
+	for i := len(names); i >= 1; i-- {
+		s = strings.ReplaceAll(s, fmt.Sprintf("$%d", i), names[i-1])
+	}
+	return s
 }
